@@ -124,21 +124,41 @@ func extraC02Reader(c *Ctx, r *Report) {
 			if !ok {
 				return
 			}
-			mc, ok := g.Call.Value.(*ssa.MakeClosure)
-			if !ok {
+			// the goroutine body: a closure (channel captured) or a named function (channel passed as argument)
+			var cl *ssa.Function
+			mc, _ := g.Call.Value.(*ssa.MakeClosure)
+			if mc != nil {
+				cl = mc.Fn.(*ssa.Function)
+			} else if sc := g.Call.StaticCallee(); sc != nil && c.inRepo(sc) {
+				cl = sc
+			}
+			if cl == nil || cl.Blocks == nil {
 				return
 			}
-			cl := mc.Fn.(*ssa.Function)
 			reads := false
 			cells := map[ssa.Value]bool{}
 			cellOf := func(ch ssa.Value) ssa.Value {
 				if ld, ok := ch.(*ssa.UnOp); ok && ld.Op == token.MUL {
 					ch = ld.X
 				}
-				if fv, ok := ch.(*ssa.FreeVar); ok {
+				if fv, ok := ch.(*ssa.FreeVar); ok && mc != nil {
 					for i, v := range cl.FreeVars {
 						if v == fv && i < len(mc.Bindings) {
 							return mc.Bindings[i]
+						}
+					}
+				}
+				if p, ok := ch.(*ssa.Parameter); ok && mc == nil {
+					for i, q := range cl.Params {
+						if q == p && i < len(g.Call.Args) {
+							a := g.Call.Args[i]
+							if ct, ok := a.(*ssa.ChangeType); ok {
+								a = ct.X
+							}
+							if ld, ok := a.(*ssa.UnOp); ok && ld.Op == token.MUL {
+								return ld.X
+							}
+							return a
 						}
 					}
 				}
@@ -164,6 +184,9 @@ func extraC02Reader(c *Ctx, r *Report) {
 			}
 			n++
 			isCell := func(ch ssa.Value) bool {
+				if ct, ok := ch.(*ssa.ChangeType); ok {
+					ch = ct.X
+				}
 				if ld, ok := ch.(*ssa.UnOp); ok && ld.Op == token.MUL {
 					return cells[ld.X]
 				}
@@ -515,13 +538,8 @@ func extraC08Wave2(c *Ctx, r *Report) {
 	var slot *types.Var
 	if isOpen != nil {
 		eachInstr(isOpen, func(in ssa.Instruction) {
-			if call, ok := in.(*ssa.Call); ok {
-				ci := describeCall(&call.Call)
-				if ci.Pkg == "sync/atomic" && strings.HasPrefix(ci.Name, "CompareAndSwap") {
-					if _, fld, ok := fieldOf(call.Call.Args[0]); ok {
-						slot = fld
-					}
-				}
+			if kind, _, fld, _, isA := atomicFieldCall(in); isA && kind == "cas" {
+				slot = fld
 			}
 		})
 	}
@@ -536,19 +554,11 @@ func extraC08Wave2(c *Ctx, r *Report) {
 			continue
 		}
 		isAtomicWrite := func(in ssa.Instruction) (*types.Var, ssa.Value, bool) {
-			cc := getCall(in)
-			if cc == nil || len(cc.Args) == 0 {
+			kind, _, fld, v, ok := atomicFieldCall(in)
+			if !ok || (kind != "store" && kind != "add") {
 				return nil, nil, false
 			}
-			ci := describeCall(cc)
-			if ci.Pkg != "sync/atomic" || !(strings.HasPrefix(ci.Name, "Store") || strings.HasPrefix(ci.Name, "Add")) {
-				return nil, nil, false
-			}
-			_, fld, ok := fieldOf(cc.Args[0])
-			if !ok {
-				return nil, nil, false
-			}
-			return fld, cc.Args[len(cc.Args)-1], true
+			return fld, v, true
 		}
 		isRelease := func(in ssa.Instruction) bool {
 			fld, v, ok := isAtomicWrite(in)
